@@ -339,6 +339,25 @@ def argDefaultRegression : Program :=
 
 theorem argument_default_regression : (run cfg env0 argDefaultRegression).outcome = .reject .resolve := by decide
 
+/-- `m: include "a.b.thrift" include "a.thrift" const i32 x = a.b.c`, `a.b.thrift: const i32 c = 1`,
+`a.thrift: enum b { c }` — the identifier has two readings (constant `c` of include `a.b`, value `c` of
+enum `b` of include `a`): both are counted, whatever reading comes first (seeded change C04-m4 stopped
+after the first reading that resolved). -/
+def ambiguousMain : File :=
+  { file0 with
+      includes := [⟨[97, 46, 98, 46, 116, 104, 114, 105, 102, 116], 1⟩, ⟨[97, 46, 116, 104, 114, 105, 102, 116], 2⟩],
+      consts := [⟨[120], .base, [[97, 46, 98, 46, 99]]⟩] }
+
+def ambiguousDottedInclude : Program :=
+  ⟨[ambiguousMain,
+    { file0 with filename := [97, 46, 98], consts := [⟨[99], .base, []⟩] },
+    { file0 with filename := [97], enums := [⟨[98], [([99], 0)]⟩] }], 0⟩
+
+theorem ambiguous_dotted_include_regression :
+    resolveIdent cfg ambiguousDottedInclude (programTables ambiguousDottedInclude) (enumFuel ambiguousDottedInclude) 0
+      ambiguousMain [97, 46, 98, 46, 99] = .ambiguous ∧
+    (run cfg env0 ambiguousDottedInclude).outcome = .reject .resolve := by decide
+
 /-! ## the hypotheses are satisfiable -/
 
 example : WF typedefCycleIdentRegression := (wfb_iff _).mp (by decide)
